@@ -58,6 +58,8 @@ def run(ctx):
     adaptive_records = []
     assemble_records, assemble_errors = [], []
     span_records = []
+    best_records = []
+    import bestbasis_model
     import span_model
     import assemble_model
     # the listed known findings are re-examined first, on their recorded inputs (a finding that still fails prints its
@@ -147,6 +149,8 @@ def run(ctx):
                 clusters = SBC().get_clusters(a, seed=seed)
             if len(adaptive_records) < 500:
                 adaptive_records.extend(prec.adaptive[:30])
+            if len(best_records) < ctx.n(24, 300):
+                best_records.extend(prec.best[:3])
             if len(span_records) < ctx.n(24, 200):
                 span_records.extend(prec.span[:2])
             for r_ in prec.assemble[:4]:      # at most half of the budget to each of the 2D and the 3D routine
@@ -195,6 +199,7 @@ def run(ctx):
     finder_helpers.check(ctx, broken, adaptive_records)
     assemble_model.check(ctx, broken, assemble_records, assemble_errors)
     span_model.check(ctx, broken, span_records)
+    bestbasis_model.check(ctx, broken, best_records)
     if broken and not ctx.unknown_findings():
         ctx.finding("unproved", "theorem no longer checks, no failing crystal found", {"kind": "broken-obligation", "broken": broken}, found_input=False)
     ctx.coverage["broken"] = [{"what": k_, "info": i} for k_, i in broken]
